@@ -12,7 +12,7 @@ import idx_common as I
 ID = "C01"
 LEAN_MODULES = ["CatiiProps.C01"]
 RULE = ("exhaustive: all 1-D arrays of length <=5 and all 3x2 arrays over {0,1,2} x option grid (common omitted / each "
-        "present value / an absent one; counts omitted / exact; mapping omitted / injective / many-to-one) x way back "
+        "present value / an absent one; counts omitted / exact; mapping omitted / injective / many-to-one; input in C / Fortran order, as a transposed, strided or reversed view) x way back "
         "(dtype=int64 / default dtype / mapping); random: N in 0..400, 1..4 columns, alphabets of 1..4 values or >=5 "
         "values with <5% uncommon cells and N>=80 (forces the row-scan strategy), magnitudes at every dtype boundary "
         "incl. negatives down to -2^63; huge values without counts run in a memory-limited subprocess. Non-trivial = at "
@@ -47,8 +47,34 @@ def build_mapping(rng, a, common, kind):
     return {k: rng.choice([0, 1, 7]) for k in keys}
 
 
+def relayout(rng, a):
+    """the same values in another memory layout (Fortran order, a transposed view, a strided or reversed view)"""
+    kind = rng.choice(["c", "c", "f", "transposed_view", "strided", "reversed"])
+    if a.size == 0 or kind == "c":
+        return a, "c"
+    if a.ndim == 2 and kind == "f":
+        return np.asfortranarray(a), kind
+    if a.ndim == 2 and kind == "transposed_view":
+        return np.ascontiguousarray(a.T).T, kind
+    if kind == "strided":
+        if a.ndim == 1:
+            buf = np.full(2 * a.shape[0], -77, dtype=a.dtype)
+            buf[::2] = a
+            return buf[::2], kind
+        buf = np.full((a.shape[0], 2 * a.shape[1]), -77, dtype=a.dtype)
+        buf[:, ::2] = a
+        return buf[:, ::2], kind
+    if kind == "reversed":
+        return np.ascontiguousarray(a[::-1])[::-1], kind
+    return a, "c"
+
+
 def one(ctx, a, common, use_counts, mk, reqs, pend, force_no_model=False):
     from catii import iindex
+    a_values = a
+    a, layout = relayout(ctx.rng, a)
+    assert np.array_equal(a, a_values)
+    ctx.hit("layout:" + layout)
     mapping = build_mapping(ctx.rng, a, common, mk)
     counts = None
     if use_counts:
